@@ -307,7 +307,10 @@ def run_case(script):
       gevent.spawn(top.AsyncProcessRequest, stack, msg, None, {})
 
     def close_client():
-      top.Close()
+      try:
+        top.Close()
+      except Exception:
+        pass      # what an escaping exception leaves undone is judged by the clauses
   else:
     from scales.loadbalancer.serverset import StaticServerSetProvider
     from scales.core import ScalesUriParser
@@ -340,7 +343,10 @@ def run_case(script):
       ar.rawlink(done)
 
     def close_client():
-      client.DispatcherClose()
+      try:
+        client.DispatcherClose()
+      except Exception:
+        pass
 
   # ---- observation
   st_prev = {'down': False}
@@ -684,7 +690,10 @@ def run_case_multi(script):
     elif k == 'close':
       if not env['closed']:
         env['closed'] = True
-        client.DispatcherClose()
+        try:
+          client.DispatcherClose()
+        except Exception:
+          pass
         loop.run_until_idle()
         ev.append({'e': 'ClientClosed', 't': ms()})
   quiet()
